@@ -19,7 +19,8 @@ META = {
         'zone name and never convert it.  (D3) failure discipline of timezone_name: only ValueError can leave (tabled '
         'may-raise facts), every zone returned by the fallback scan is dominated by the test "offset of the candidate at '
         'that instant == offset of the value", the UTC shortcut by offset == 0 and only after the mapped-zone lookup, the last statement raises ValueError; '
-        'timezone_name is not memoised (aware datetimes compare by instant); every zone name the writer can emit is a token the ZINC reader accepts (date-time row of the writer/reader pairing).'),
+        'timezone_name is not memoised (aware datetimes compare by instant); every zone name the writer can emit is a token the ZINC reader accepts (date-time row of the writer/reader pairing).'
+        ' Also (D2): the zone conversion is not conditioned on the truthiness of utcoffset() (timedelta(0) is falsy); every binding of the written zone label is timezone_name(value).'),
     'rule_text': 'obligations = map-construction facts, reader/writer API sites, timezone_name paths',
     'trusted_base': ['pytz.all_timezones lists each zone once; astimezone() preserves the instant; spec/may_raise.json'],
 }
@@ -204,7 +205,26 @@ def _api(ctx, m, rule='C17.D2', only=None):
         rets = [norm(n.value) for n in walk_no_nested(fn) if isinstance(n, ast.Return)]
         okret = any('%s.isoformat()' % a in r and 'tz_name' in r for r in rets)
         tzn = [norm(n) for n in ast.walk(fn) if isinstance(n, ast.Call) and norm(n.func) == 'timezone_name']
-        if not bad and okret and tzn and tzn[0].startswith('timezone_name(%s' % a):
+        # every binding of the name that is written as the zone label is timezone_name(<the value>)
+        other = []
+        if not bad and okret and tzn:
+            labels = {x.id for r_ in walk_no_nested(fn) if isinstance(r_, ast.Return) and r_.value is not None
+                      for x in ast.walk(r_.value) if isinstance(x, ast.Name) and x.id not in (a, 'version')}
+            for st_ in walk_no_nested(fn):
+                if isinstance(st_, ast.Assign) and len(st_.targets) == 1 and isinstance(st_.targets[0], ast.Name) \
+                        and st_.targets[0].id in labels:
+                    v_ = st_.value
+                    if not (isinstance(v_, ast.Call) and norm(v_.func) == 'timezone_name' and v_.args and norm(v_.args[0]) == a):
+                        other.append(st_)
+        if other:
+            st_ = other[0]
+            ctx.violation(rule, '%s::dump_date_time' % F, norm(st_),
+                          'a date-time in London in winter (2021-01-15T12:00:00+00:00 London), or in Reykjavik / Accra / GMT at any '
+                          'time: the zone label is taken from `%s`, not from timezone_name(value), and the value is read back in '
+                          'another zone than it was written from' % norm(st_.value)[:40],
+                          'dump_date_time writes a zone label that does not come from timezone_name(value) on every path', file=F,
+                          line=st_.lineno, engine='E9')
+        elif not bad and okret and tzn and tzn[0].startswith('timezone_name(%s' % a):
             ctx.ob(rule, '%s.dump_date_time emits isoformat() of the value itself plus timezone_name(value)' % modname,
                    True, '%s:%d' % (F, fn.lineno))
         elif bad:
@@ -498,12 +518,29 @@ def zone_applied(ctx, m, rule, modname, fname, style, catches=False):
         pos = ('bool(%s)' % tzname, tzname, '%s is not None' % tzname)
         neg = ('not bool(%s)' % tzname, 'not %s' % tzname, '%s is None' % tzname)
         verdict = None
+        extra = None
         for t, pol in gs:
             tt = norm(t)
             if (tt in pos and pol) or (tt in neg and not pol):
                 verdict = verdict or 'ok'
             elif (tt in pos and not pol) or (tt in neg and pol):
                 verdict = 'inverted'
+            elif pol and isinstance(t, ast.BoolOp) and isinstance(t.op, ast.And) and any(norm(v) in pos for v in t.values):
+                # `label and <something about the stamp>`: the conversion no longer happens for every labelled stamp
+                rest = [v for v in t.values if norm(v) not in pos]
+                falsy_zero = [v for v in rest if isinstance(v, ast.Call) and isinstance(v.func, ast.Attribute)
+                              and v.func.attr in ('utcoffset', 'dst') and not v.args]
+                if falsy_zero and len(rest) == len(falsy_zero):
+                    extra = falsy_zero[0]
+                    verdict = 'zero-offset'
+        if verdict == 'zero-offset':
+            ctx.violation(rule, con, norm(conv),
+                          'the stamp 2021-01-15T12:00:00+00:00 London (any zone that sits at offset 0: London, Lisbon and Dublin in '
+                          'winter, Reykjavik, Accra, GMT): `%s` is timedelta(0), which is FALSY, so the zone label is ignored and '
+                          'the value comes back as plain UTC -- re-dumped as "... UTC"' % norm(extra),
+                          'the zone conversion is skipped when `%s` is falsy, i.e. for every stamp whose offset is zero'
+                          % norm(extra), file=F_, line=conv.lineno, engine='E7')
+            return
         if verdict == 'ok':
             ctx.ob(rule, '%s: the conversion is done exactly when a label is present' % fname, True, '%s:%d' % (F_, conv.lineno))
         elif verdict == 'inverted':
